@@ -329,14 +329,14 @@ Proof.
           * unfold cc, c4, c3. sc_rw. sc_cbn. rewrite <- Es. destruct (IDS s Is). lia.
         + intros e' Ie. unfold cc in Ie. rewrite sc_ring_close_stream in Ie.
           destruct (mark_closed_ring_In _ _ _ _ _ Ie) as [->|Ie'].
-          * cbn [fst]. unfold c4, c3. sc_rw. sc_cbn. rewrite I5, <- Es. destruct (IDS s Is). lia.
+          * cbn [fst]. unfold cc, c4, c3. sc_rw. sc_cbn. rewrite I5, <- Es. destruct (IDS s Is). lia.
           * unfold c4, c3 in Ie'. rewrite sc_ring_put, sc_ring_write_reset in Ie'. sc_cbn_in Ie'.
-            unfold c4, c3. sc_rw. sc_cbn. apply RING. exact Ie'.
+            unfold cc, c4, c3. sc_rw. sc_cbn. apply RING. exact Ie'.
       - unfold next_cur. destruct (eh_of fr); [congruence|]. intros _.
         replace (st_id s =? sf_sid fr) with true in CD by lia. cbn [negb] in CD. injection CD as E1 E2 E3.
         unfold carry_at, cc. rewrite E1, E2, E3. unfold c4, c3. sc_rw. sc_cbn. rewrite Es, N.eqb_refl. reflexivity. }
     destruct (wc && can_close_after_goaway cc)%bool.
-    + split; [cbn [brk fst note]; sc_cbn; rewrite DC; exact R | intro Hd'; discriminate Hd'].
+    + split; [rewrite sc_dec_brk, DC; exact R | intro Hd'; discriminate Hd'].
     + split; [cbn [cont fst]; rewrite DC; exact R | intros _; exact HC].
 Qed.
 
